@@ -271,10 +271,6 @@ def r05_2_3(c, R, spec, ctx):
             goal = pe.apply(a[2], [S("n")]) if len(a) == 5 and a[2][0] == "closure" else None
             R.inst(r3, "search-goal-is-requested-version", goal is not None and U.kind_of(goal) == "cmp" and
                    U.canon_guard(goal, True) == ("eq", "$n", "$tv.node_index"), sp=fn["sp"], got=showv(goal), expect="|n| n == target_version.node_index")
-            cost = pe.apply(a[3], [S("e")]) if len(a) == 5 and a[3][0] == "closure" else None
-            heur = pe.apply(a[4], [S("n")]) if len(a) == 5 and a[4][0] == "closure" else None
-            R.inst(r3, "search-cost-positive-heuristic-zero", cost is not None and cost[0] == "i" and cost[1] > 0 and heur == ("i", 0), sp=fn["sp"],
-                   got=[showv(cost), showv(heur)], expect="constant positive edge cost, heuristic 0 (admissible)")
             ctx["astar_tried"] = True
     # the step closure
     if step[0] != "closure":
@@ -310,7 +306,7 @@ def r05_2_3(c, R, spec, ctx):
     R.inst(r2, "namespace-literal-consistent", len(ns_lits) == 3 and len(set(ns_lits.values())) == 1, sp=fn["sp"], got=ns_lits,
            expect="the same string literal in contract_inner_class_names, apply_to and extend_inner_class_names")
     R.floor(r2, 6)
-    R.floor(r3, 11)
+    R.floor(r3, 10)
 
 
 # ------------------------------------------------------------------------------------ R05.4
@@ -528,4 +524,4 @@ def r05_5(c, R, spec, ctx):
             ok_ids = len(ids_v) == 1 and len(ids_g) == 1 and fl.get("versions") and fl["versions"][0] in ids_v and fl.get("graph") and fl["graph"][0] in ids_g
         R.inst(rid, "returned-containers-are-the-scanned-ones", okc and ok_ids, sp=fnr["sp"],
                got={k: showv(v) for k, v in vals.items()}, expect="VersionGraph { versions, graph } = the map/graph add_node filled")
-    R.floor(rid, 12)
+    R.floor(rid, 13)
